@@ -568,7 +568,11 @@ func (e *Expr) write(b *strings.Builder) {
 		e.Args[0].write(b)
 		b.WriteString(e.Name)
 	case "phi":
-		b.WriteString("φ{")
+		b.WriteString("φ")
+		if ph, ok := e.Val.(*ssa.Phi); ok && ph.Block() != nil {
+			fmt.Fprintf(b, "%d", ph.Block().Index)
+		}
+		b.WriteString("{")
 		list(e.Args, " | ")
 		b.WriteString("}")
 	case "cell":
